@@ -20,5 +20,6 @@ var props = map[string]propCfg{
 	"C16": {Assumptions: []string{"the version rule (top-level struct truncated / zero-extended, nested objects intact) is the one documented at Struct.CopyFrom; independence is asserted for operations documented or implemented as copies (cross-message assignment, list members, SetStruct, CopyFrom)"}},
 	"C10": {Race: true, Assumptions: []string{"the reference model encodes the documented life cycle of Client / ClientPromise / WeakClient", "programmer errors (double Fulfill, promise cycles, AddRef/WeakRef/Fulfill with a released client) are never generated", "concurrent schedules are sampled, not enumerated"}},
 	"C11": {Race: true, Assumptions: []string{"the delivery model follows the state machine documented at capnp.Promise", "programmer errors (Fulfill/Reject/Join twice, join cycles, using a pipelined client after ReleaseClients) are never generated"}},
+	"C12": {Race: true, Assumptions: []string{"'made in order' = issued from one goroutine, each after the previous Send returned (the contract of capnp.ClientHook)", "instrumented implementation logs to a totally ordered event log; invariants are checked on the log, not on timing"}},
 	"C13": {Assumptions: []string{"ref.Pack/ref.Unpack (written from the packing spec, self-tested against the repository's TestPack vectors) are correct"}},
 }
